@@ -29,7 +29,101 @@ theorem C18_sound (env : Env) (s : State) (rel : Relevant) (tx : Tx) (sp : Nat)
       sp = speedOf tip910 difficulty (s.height - coin.height) ∧
       doscToErg s.height (rewardOf tip910 difficulty sp prevHdr.doscSpeed) = .ok erg ∧
       (tx.totalOutputs.get .erg).getD 0 ≤ erg := by
-  sorry
+  unfold validateDoscmint at h
+  cases hin : tx.inputs with
+  | nil => rw [hin] at h; cases h
+  | cons coinId rest =>
+    rw [hin] at h
+    simp only at h
+    cases hrel : rel.get coinId with
+    | none => rw [hrel] at h; cases h
+    | some coin =>
+      rw [hrel] at h
+      simp only at h
+      by_cases hgt : coin.height > s.height
+      · rw [if_pos hgt] at h; cases h
+      rw [if_neg hgt] at h
+      by_cases hage : (decide (s.height - coin.height < DOSCMINT_MIN_AGE) && decide (s.network = .mainnet)) = true
+      · rw [if_pos hage] at h; cases h
+      rw [if_neg hage] at h
+      cases hseed : s.history.get coin.height with
+      | none => rw [hseed] at h; cases h
+      | some seedHdr =>
+        rw [hseed] at h
+        simp only at h
+        cases hd : tx.powDifficulty with
+        | none => rw [hd] at h; cases h
+        | some difficulty =>
+          rw [hd] at h
+          simp only at h
+          by_cases hpp : (!tx.powProofParses) = true
+          · rw [if_pos hpp] at h; cases h
+          rw [if_neg hpp] at h
+          generalize hv : env.powOk (env.hdrHash seedHdr) coinId difficulty tx.hash = v at h
+          cases v with
+          | panics => cases h
+          | invalid => cases h
+          | legacy =>
+            have hdec : decide (PowVerdict.legacy = PowVerdict.tip910) = false := by decide
+            simp only [hdec] at h
+            obtain ⟨mySpeed, hcs, h⟩ := Mint.bind_ok_inv h
+            obtain ⟨hd128, hlt, hms⟩ := Mint.computeDoscmintSpeed_ok hcs
+            by_cases hz : s.height = 0
+            · rw [if_pos hz] at h; cases h
+            rw [if_neg hz] at h
+            cases hprev : s.history.get (s.height - 1) with
+            | none => rw [hprev] at h; cases h
+            | some prev =>
+              rw [hprev] at h
+              simp only at h
+              obtain ⟨rr, hrr, h⟩ := Mint.bind_ok_inv h
+              obtain ⟨rn, hrn, h⟩ := Mint.bind_ok_inv h
+              by_cases hex : (tx.totalOutputs.get .erg).getD 0 > rn
+              · rw [if_pos hex] at h; cases h
+              rw [if_neg hex] at h
+              injection h with h
+              subst h
+              have hrr' := Mint.calculateReward_ok hrr
+              refine ⟨coinId, coin, seedHdr, prev, difficulty, false, rn, rfl, hrel, hlt, hseed, rfl, rfl,
+                by simpa using hpp, hv, ?_, ?_, ?_, by omega⟩
+              · intro hn
+                by_cases hlt100 : s.height - coin.height < DOSCMINT_MIN_AGE
+                · exact absurd (by simp [hlt100, hn]) hage
+                · simp only [DOSCMINT_MIN_AGE] at hlt100; omega
+              · exact hms
+              · have : rewardOf false difficulty mySpeed prev.doscSpeed = rr := by
+                  rw [hrr']; rfl
+                rw [this]; exact hrn
+          | tip910 =>
+            simp only at h
+            obtain ⟨mySpeed, hcs, h⟩ := Mint.bind_ok_inv h
+            obtain ⟨hd128, hlt, hms⟩ := Mint.computeDoscmintSpeed_ok hcs
+            by_cases hz : s.height = 0
+            · rw [if_pos hz] at h; cases h
+            rw [if_neg hz] at h
+            cases hprev : s.history.get (s.height - 1) with
+            | none => rw [hprev] at h; cases h
+            | some prev =>
+              rw [hprev] at h
+              simp only at h
+              obtain ⟨rr, hrr, h⟩ := Mint.bind_ok_inv h
+              obtain ⟨rn, hrn, h⟩ := Mint.bind_ok_inv h
+              by_cases hex : (tx.totalOutputs.get .erg).getD 0 > rn
+              · rw [if_pos hex] at h; cases h
+              rw [if_neg hex] at h
+              injection h with h
+              subst h
+              have hrr' := Mint.calculateReward_ok hrr
+              refine ⟨coinId, coin, seedHdr, prev, difficulty, true, rn, rfl, hrel, hlt, hseed, rfl, rfl,
+                by simpa using hpp, hv, ?_, ?_, ?_, by omega⟩
+              · intro hn
+                by_cases hlt100 : s.height - coin.height < DOSCMINT_MIN_AGE
+                · exact absurd (by simp [hlt100, hn]) hage
+                · simp only [DOSCMINT_MIN_AGE] at hlt100; omega
+              · exact hms
+              · have : rewardOf true difficulty mySpeed prev.doscSpeed = rr := by
+                  rw [hrr']; rfl
+                rw [this]; exact hrn
 
 /-- each failing condition rejects: an invalid proof -/
 theorem C18_invalid_proof (env : Env) (s : State) (rel : Relevant) (tx : Tx) (coinId : CoinID) (coin : CoinDataHeight)
@@ -37,46 +131,89 @@ theorem C18_invalid_proof (env : Env) (s : State) (rel : Relevant) (tx : Tx) (co
     (hs : s.history.get coin.height = some seedHdr) (hd : tx.powDifficulty = some d)
     (hv : env.powOk (env.hdrHash seedHdr) coinId d tx.hash = .invalid) :
     ∀ sp, validateDoscmint env s rel tx ≠ .ok sp := by
-  sorry
+  intro sp h
+  obtain ⟨coinId', coin', seedHdr', _, d', t, _, hi', hc', _, hs', _, hd', _, hv', _⟩ := C18_sound env s rel tx sp h
+  rw [hi] at hi'; injection hi' with hi'; subst hi'
+  rw [hc] at hc'; injection hc' with hc'; subst hc'
+  rw [hs] at hs'; injection hs' with hs'; subst hs'
+  rw [hd] at hd'; injection hd' with hd'; subst hd'
+  rw [hv] at hv'
+  cases t <;> simp at hv'
 
 /-- … undecodable data -/
 theorem C18_undecodable (env : Env) (s : State) (rel : Relevant) (tx : Tx) (h : tx.powDifficulty = none) :
     ∀ sp, validateDoscmint env s rel tx ≠ .ok sp := by
-  sorry
+  intro sp h'
+  obtain ⟨_, _, _, _, d', _, _, _, _, _, _, _, hd', _⟩ := C18_sound env s rel tx sp h'
+  rw [h] at hd'; cases hd'
 
 /-- … a coin younger than 100 blocks on mainnet -/
 theorem C18_too_recent (env : Env) (s : State) (rel : Relevant) (tx : Tx) (coinId : CoinID) (coin : CoinDataHeight)
     (hi : tx.inputs.head? = some coinId) (hc : rel.get coinId = some coin) (hn : s.network = .mainnet)
     (hy : s.height - coin.height < 100) : ∀ sp, validateDoscmint env s rel tx ≠ .ok sp := by
-  sorry
+  intro sp h
+  obtain ⟨coinId', coin', _, _, _, _, _, hi', hc', _, _, _, _, _, _, hage, _⟩ := C18_sound env s rel tx sp h
+  rw [hi] at hi'; injection hi' with hi'; subst hi'
+  rw [hc] at hc'; injection hc' with hc'; subst hc'
+  have := hage hn
+  omega
 
 /-- every ERG-minting transaction of an accepted batch went through that validation -/
 theorem C18_batch_validates (env : Env) (s s' : State) (txs : List Tx) (fb : Header)
     (h : applyBatch env s txs fb = .ok s') (tx : Tx) (htx : tx ∈ txs) (hk : tx.kind = .doscMint) :
     ∃ rel sp, loadRelevantCoins s txs = .ok rel ∧ validateDoscmint env s rel tx = .ok sp ∧ sp ≤ s'.doscSpeed := by
-  sorry
+  obtain ⟨rel, hrel, hf⟩ := Mint.applyBatch_speed h
+  obtain ⟨_, h2, _, _⟩ := Mint.speedFold_spec env s rel txs _ _ hf
+  obtain ⟨sp, hv, hle⟩ := h2 tx htx hk
+  exact ⟨rel, sp, hrel, hv, hle⟩
 
 /-- only ERG-mint (and faucet) transactions may create ERG: every other accepted transaction's ERG outputs are
     matched by ERG inputs -/
 theorem C18_erg_balanced (kind : TxKind) (inCoins outCoins : AList Denom Nat) (hk : kind ≠ .doscMint) (hf : kind ≠ .faucet)
     (h : checkBalanced kind inCoins outCoins = .ok ()) (v : Nat) (hv : (.erg, v) ∈ outCoins) :
     inCoins.get .erg = some v := by
-  sorry
+  unfold checkBalanced at h
+  rw [if_neg hf] at h
+  have := Mint.forM'_ok h _ hv
+  simp only [hk] at this
+  cases hg : inCoins.get Denom.erg with
+  | none => rw [hg] at this; simp at this
+  | some iv =>
+    rw [hg] at this
+    simp only at this
+    by_cases hne : v ≠ iv
+    · rw [if_pos hne] at this; cases this
+    · simp at hne; rw [hne]
 
 /-- the DOSC speed never decreases, and without ERG mints it does not change -/
 theorem C18_speed_monotone (env : Env) (s s' : State) (txs : List Tx) (fb : Header)
     (h : applyBatch env s txs fb = .ok s') : s.doscSpeed ≤ s'.doscSpeed := by
-  sorry
+  obtain ⟨rel, _, hf⟩ := Mint.applyBatch_speed h
+  exact (Mint.speedFold_spec env s rel txs _ _ hf).1
 
 theorem C18_speed_unchanged (env : Env) (s s' : State) (txs : List Tx) (fb : Header)
     (h : applyBatch env s txs fb = .ok s') (hn : ∀ tx ∈ txs, tx.kind ≠ .doscMint) : s'.doscSpeed = s.doscSpeed := by
-  sorry
+  obtain ⟨rel, _, hf⟩ := Mint.applyBatch_speed h
+  exact (Mint.speedFold_spec env s rel txs _ _ hf).2.2.2 hn
 
 /-- … it is the maximum of the previous value and the speeds demonstrated in the batch -/
 theorem C18_speed_is_max (env : Env) (s s' : State) (txs : List Tx) (fb : Header)
     (h : applyBatch env s txs fb = .ok s') :
     s'.doscSpeed = s.doscSpeed ∨
     ∃ tx ∈ txs, tx.kind = .doscMint ∧ ∃ rel, loadRelevantCoins s txs = .ok rel ∧ validateDoscmint env s rel tx = .ok s'.doscSpeed := by
-  sorry
+  obtain ⟨rel, hrel, hf⟩ := Mint.applyBatch_speed h
+  rcases (Mint.speedFold_spec env s rel txs _ _ hf).2.2.1 with h3 | ⟨tx, hm, hk, hv⟩
+  · left; exact h3
+  · right; exact ⟨tx, hm, hk, rel, hrel, hv⟩
 
 end Mel
+
+#print axioms Mel.C18_sound
+#print axioms Mel.C18_invalid_proof
+#print axioms Mel.C18_undecodable
+#print axioms Mel.C18_too_recent
+#print axioms Mel.C18_batch_validates
+#print axioms Mel.C18_erg_balanced
+#print axioms Mel.C18_speed_monotone
+#print axioms Mel.C18_speed_unchanged
+#print axioms Mel.C18_speed_is_max
